@@ -78,7 +78,10 @@ PrimFailing(ev) ==
             \* are held to the tolerance, all other primitives' vertices lie ON the outline
             (IF (g.p = "fillet" /\ ev.on_milli <= KDev) \/ (g.p # "fillet" /\ ev.on_nano <= OnCurveNano)
              THEN {} ELSE {<<0, g.p, "vertices_off_outline">>})
-            \cup (IF ev.dev_milli <= KDev THEN {} ELSE {<<0, g.p, "strays_from_outline">>}))
+            \* a fillet arc has round(x) segments where x keeps the sagitta at the tolerance and no
+            \* minimum count: its deviation is at most ((n + 1/2) / n)^2 <= 2.25 tolerances
+            \cup (IF ev.dev_milli <= (IF g.p = "fillet" THEN 2300 ELSE KDev) THEN {}
+                  ELSE {<<0, g.p, "strays_from_outline">>}))
 
 Check(ev) == CASE ev.e = "curve" -> CurveFailing(ev)
                [] ev.e = "prim" -> PrimFailing(ev)
